@@ -307,8 +307,8 @@ Definition run (adv vid : list Z) (chain : list sx) (lft : sx) (a : sx) (fuel : 
                     if is_tag "pred" t then
                       match pred_of p, vb with
                       | Some pg, V1 f =>
-                          if is_tag "while" adv then answer (m_while fuel (loggedp pg) f av [])
-                          else answer (m_scan_while fuel (loggedp pg) f av [])
+                          if is_tag "while" adv then answer (m_while while_truth_is_klong fuel (loggedp pg) f av [])
+                          else answer (m_scan_while while_truth_is_klong fuel (loggedp pg) f av [])
                       | _, _ => sx_err "pred"
                       end
                     else sx_err "left"
